@@ -111,6 +111,26 @@ Theorem C10_distributed_aggregation_equals_central :
 Proof. exact DistTree.distributed_aggregation_equals_central. Qed.
 Print Assumptions C10_distributed_aggregation_equals_central.
 
+(* count: every engine counts its own partition and the coordinator sums the counts
+   (conv: the count as a sample value, additive) *)
+Theorem C10_distributed_count_equals_central :
+  forall cf w, (0 < Compose.c_shards cf)%nat -> (0 < Compose.c_batch cf)%nat -> (0 <= Compose.c_lookback cf)%Z ->
+  Base.wf_window w -> (Bin.noT < Base.w_start w)%Z ->
+  forall (conv : nat -> Z), (forall a b, conv (a + b)%nat = (conv a + conv b)%Z) ->
+  forall without grouping s ls1 ls2 s1 s2, DistTree.sok s -> List.length ls1 = List.length s1 -> List.length ls2 = List.length s2 ->
+  Forall Base.sorted_ts s1 -> Forall Base.sorted_ts s2 ->
+  forall ts, In ts (Grid.grid w) ->
+  let cnt := fun t => Trees.JCount conv without grouping t in
+  let central := cnt (DistTree.inst s (ls1 ++ ls2) (s1 ++ s2)) in
+  let distributed := Trees.JAgg (fun v => v) Z.add without grouping
+                       (Trees.JConcat (Trees.JRemote (cnt (DistTree.inst s ls1 s1))) (Trees.JRemote (cnt (DistTree.inst s ls2 s2)))) in
+  exists outs_c outs_d,
+    Trees.jrun cf w central = inl outs_c /\ Trees.jrun cf w distributed = inl outs_d /\
+    Permutation (Bin.labelled Z (Trees.jseries central) (DistTree.step_of outs_c ts))
+                (Bin.labelled Z (Trees.jseries distributed) (DistTree.step_of outs_d ts)).
+Proof. exact DistTree.distributed_count_equals_central. Qed.
+Print Assumptions C10_distributed_count_equals_central.
+
 (* non-vacuity: sum by (b) (foo) with foo's three series on two engines, two steps *)
 Example C10_distributed_example :
   let l1 := [[(0, 10); (1, 20); (2, 31)]; [(0, 10); (1, 22); (2, 32)]]%N in
@@ -127,8 +147,7 @@ Proof. cbv zeta. split; vm_compute; reflexivity. Qed.
 (* PARTIAL. Proved: the shape of what is sent to the partitions, the algebra of the
    distributive reductions for every partitioning, and end to end - through the
    remote execution's read-back and the coalesce operator - per-series expressions
-   and sum/max/min aggregations of them over two engines. Not proved end to end:
-   count (pushed down as count, merged with sum: C10_count_pushdown gives the algebra),
+   sum/max/min and count aggregations of them over two engines. Not proved end to end:
    group, topk/bottomk (C10_topk_pushdown: sound for tie-free data), more than two
    engines (Coalesce nests), and expressions whose distributed form mixes pushed and
    unpushed parts. Those are decided by the dist oracle and the distributed tree
